@@ -316,12 +316,30 @@ def main_check(prop, tier, seed, n_runs=None, workers=None, time_cap=None):
         reported = []
         repdir = os.environ.get("VERIF_REPLAY_DIR") or os.path.join(ROOT, "replays")
         os.makedirs(repdir, exist_ok=True)
-        for nsig, (sig, rs) in enumerate(sorted(by_sig.items())):
+        known_sigs = set(k.get("signature") for k in known)
+        # announce at once: should the process be stopped during minimisation, the verdict and an
+        # (unminimised but complete) replay file are already there
+        for sig, rs in sorted(by_sig.items()):
+            if sig in known_sigs:
+                continue
+            early = os.path.join(repdir, "%s-%d-%d.json" % (prop, seed, rs[0]["run"]))
+            with open(early, "w") as f:
+                json.dump({"property": prop, "engine": P["engine"], "seed": seed, "run": rs[0]["run"], "signature": sig,
+                           "violation": rs[0]["violation"], "digest": rs[0]["digest"], "spec": rs[0]["spec"],
+                           "minimised": False, "count_in_batch": len(rs)}, f, indent=1, default=str)
+        if any(sig not in known_sigs for sig in by_sig):
+            print("violations found in %d runs (%d distinct signatures); minimising ..." % (len(viol), len(by_sig)))
+            sys.stdout.flush()
+        t_min0 = time.time()
+        min_total = 170 if tier == "quick" else 900       # seconds for all minimisations together
+        for nsig, (sig, rs) in enumerate(sorted(by_sig.items(), key=lambda kv: (kv[0] in known_sigs, kv[0]))):
             r = rs[0]
             iso = lambda spec, wd, _p=prop: execute_isolated(_p, spec, wd)
-            # full minimisation budget for the first few distinct violations, a small one for the rest
-            m = M.Minimiser(iso, os.path.join(base, "min"), budget=P.get("min_budget", 250) if nsig < 3 else 40,
-                            seconds=150 if nsig < 3 else 40)
+            # full minimisation budget for the first distinct violations, a small one for the rest
+            left = max(5.0, min_total - (time.time() - t_min0))
+            per = (70 if tier == "quick" else 150) if nsig < 2 else (15 if tier == "quick" else 40)
+            m = M.Minimiser(iso, os.path.join(base, "min"), budget=P.get("min_budget", 250) if nsig < 2 else 40,
+                            seconds=min(per, left))
             intermittent = None
             res0 = None
             for attempt in range(5):
